@@ -96,6 +96,8 @@ def lower_expr(n) -> Any:
     if k == "BinaryOperator" or k == "CompoundAssignOperator":
         return ("bin", n.get("opcode"), lower_expr(ks[0]), lower_expr(ks[1]))
     if k == "UnaryOperator":
+        if n.get("opcode") == "*":
+            return lower_expr(ks[0])            # `*p` names the object p points to, as `p->m` already does
         return ("un", n.get("opcode"), lower_expr(ks[0]))
     if k == "ConditionalOperator":
         return ("cond", lower_expr(ks[0]), lower_expr(ks[1]), lower_expr(ks[2]))
@@ -144,12 +146,20 @@ def lower_expr(n) -> Any:
         params, body = [], []
         for c in ks:
             if c["kind"] == "CXXRecordDecl":
+                ms = []
                 for m in kids(c):
                     if m["kind"] == "CXXMethodDecl" and m.get("name") == "operator()":
-                        params = [p.get("name") for p in kids(m) if p["kind"] == "ParmVarDecl"]
-                        for b in kids(m):
-                            if b["kind"] == "CompoundStmt":
-                                body = lower_block(b)
+                        ms.append(m)
+                    elif m["kind"] == "FunctionTemplateDecl" and m.get("name") == "operator()":
+                        # a generic lambda (`auto` parameter): the pattern (first CXXMethodDecl) is the body as written
+                        pat = next((x for x in kids(m) if x["kind"] == "CXXMethodDecl"), None)
+                        if pat is not None:
+                            ms.append(pat)
+                for m in ms[:1]:
+                    params = [p.get("name") for p in kids(m) if p["kind"] == "ParmVarDecl"]
+                    for b in kids(m):
+                        if b["kind"] == "CompoundStmt":
+                            body = lower_block(b)
         return ("lambda", params, body)
     if k == "CXXDefaultArgExpr":
         return ("unknown", "default")
@@ -203,6 +213,7 @@ def lower_stmt(n) -> List[Any]:
     if k == "CXXForRangeStmt":
         var, rng, body = None, None, []
         raw = [c for c in n.get("inner", []) if c and c.get("kind")]
+        bindings = {}
         for c in raw:
             if c["kind"] == "DeclStmt":
                 for d in kids(c):
@@ -210,9 +221,18 @@ def lower_stmt(n) -> List[Any]:
                         rng = lower_expr(kids(d)[0]) if kids(d) else None
                     elif d["kind"] == "VarDecl" and not d.get("name", "").startswith("__"):
                         var = d.get("name")
+                    elif d["kind"] == "DecompositionDecl":
+                        # `for (const auto& [a, b] : xs)`: the element gets a name of its own, a / b are its members
+                        for b in kids(d):
+                            if b["kind"] == "BindingDecl" and kids(b) and kids(b)[0]["kind"] == "MemberExpr":
+                                bindings[b.get("name")] = kids(b)[0].get("name")
+                        var = "elem__" + "_".join(sorted(bindings)) if bindings else None
         if raw:
             body = lower_stmt(raw[-1])
-        return [("rangefor", var, rng, _flat(body))]
+        body = _flat(body)
+        if bindings and var:
+            body = subst_ir(body, {bn: ("field", ("ref", var), mn) for bn, mn in bindings.items()})
+        return [("rangefor", var, rng, body)]
     if k == "NullStmt":
         return []
     if k == "ContinueStmt":
@@ -254,10 +274,118 @@ def find_all(n, pred, out=None):
     return out
 
 
+def subst_ir(s, m):
+    """replace refs (and by-name callees) by expressions; lambda parameters shadow"""
+    if isinstance(s, tuple):
+        if s and s[0] == "ref" and s[1] in m:
+            return m[s[1]]
+        if s and s[0] == "call" and isinstance(s[1], str) and s[1] in m:
+            f = m[s[1]]
+            args = [subst_ir(a, m) for a in s[2]]
+            if f[0] == "ref":
+                return ("call", f[1], args)                 # a callable parameter bound to a named function
+            return ("call", f, args)
+        if s and s[0] == "lambda":
+            inner = {k: v for k, v in m.items() if k not in set(s[1])}
+            return ("lambda", s[1], subst_ir(s[2], inner))
+        return tuple(subst_ir(x, m) for x in s)
+    if isinstance(s, list):
+        return [subst_ir(x, m) for x in s]
+    return s
+
+
+def _pure_arg(e) -> bool:
+    if not isinstance(e, tuple) or not e:
+        return False
+    if e[0] in ("ref", "num", "this"):
+        return True
+    if e[0] == "field":
+        return _pure_arg(e[1])
+    if e[0] == "bin" and e[1] in ("+", "-", "*", "/"):
+        return _pure_arg(e[2]) and _pure_arg(e[3])           # arithmetic on names: no effects, same value wherever it is evaluated in the call
+    if e[0] == "un" and e[1] in ("-", "+"):
+        return _pure_arg(e[2])
+    return False
+
+
+def resolve_constexpr(stmts):
+    out = []
+    for x in stmts:
+        if x[0] == "if" and x[4] is not None:
+            out.extend(resolve_constexpr(x[2] if x[4] else x[3]))
+        elif x[0] == "static_assert":
+            continue
+        else:
+            out.append(x)
+    return out
+
+
+def single_return(body):
+    """the expression of a lambda / helper body that is one `return E` once the instantiation's constexpr-ifs are resolved, else None"""
+    b = resolve_constexpr(body)
+    if len(b) == 1 and b[0][0] == "return" and b[0][1] is not None:
+        return b[0][1]
+    return None
+
+
+def reduce_immediate(x):
+    """`(lambda(ps){ return E; })(args)` with pure arguments -> E[ps := args], everywhere in x"""
+    if isinstance(x, list):
+        return [reduce_immediate(y) for y in x]
+    if not isinstance(x, tuple) or not x:
+        return x
+    x = tuple(reduce_immediate(y) for y in x)
+    if x[0] == "call" and isinstance(x[1], tuple) and x[1] and x[1][0] == "lambda":
+        E = single_return(x[1][2])
+        if E is not None and len(x[1][1]) == len(x[2]) and all(_pure_arg(a) for a in x[2]):
+            return reduce_immediate(subst_ir(E, dict(zip(x[1][1], x[2]))))
+    return x
+
+
+def beta_ir(stmts):
+    """a local bound once to a lambda whose body is one `return E` and that is only ever called: `f(a)` becomes E[p := a] (arguments are names /
+    fields / literals, so evaluating them where the parameter stood is the same computation); the binding is dropped"""
+    lams = {}
+    for s in stmts:
+        if s[0] == "decl" and isinstance(s[2], tuple) and s[2] and s[2][0] == "lambda" and single_return(s[2][2]) is not None and "const" in (s[3] or ""):
+            lams[s[1]] = s[2]
+    if not lams:
+        return stmts
+    state = {"other": set()}
+
+    def rw(x):
+        if isinstance(x, list):
+            return [rw(y) for y in x]
+        if not isinstance(x, tuple) or not x:
+            return x
+        if x[0] in ("mcall",) and x[2] == "()" and x[1][0] == "ref" and x[1][1] in lams:
+            L = lams[x[1][1]]
+            args = [rw(a) for a in x[3]]
+            if len(args) == len(L[1]) and all(_pure_arg(a) for a in args):
+                return rw(subst_ir(single_return(L[2]), dict(zip(L[1], args))))
+            state["other"].add(x[1][1])
+            return ("mcall", x[1], x[2], args)
+        if x[0] == "call" and isinstance(x[1], str) and x[1] in lams:
+            L = lams[x[1]]
+            args = [rw(a) for a in x[2]]
+            if len(args) == len(L[1]) and all(_pure_arg(a) for a in args):
+                return rw(subst_ir(single_return(L[2]), dict(zip(L[1], args))))
+            state["other"].add(x[1])
+            return ("call", x[1], args)
+        if x[0] == "ref" and x[1] in lams:
+            state["other"].add(x[1])
+            return x
+        if x[0] == "decl" and x[1] in lams and x[2] is lams[x[1]]:
+            return x
+        return tuple(rw(y) for y in x)
+    out = [rw(s) for s in stmts]
+    return [s for s in out if not (s[0] == "decl" and s[1] in lams and s[1] not in state["other"] and s[2] is lams[s[1]])]
+
+
 def body_of(fn_decl) -> Optional[List[Any]]:
     for c in kids(fn_decl):
         if c["kind"] == "CompoundStmt":
-            return lower_block(c)
+            return beta_ir(lower_block(c))
     return None
 
 
